@@ -12,6 +12,7 @@ Python equivalents of Excel operators.
 import schedula as sh
 import functools
 import collections
+import numpy as np
 from . import replace_empty, not_implemented, wrap_func, wrap_ufunc, Error
 from .text import _str
 from .look import _get_type_id
@@ -53,7 +54,7 @@ OPERATORS['U+'] = wrap_ufunc(
 def _empty2value(other):
     if isinstance(other, str):
         return ''
-    return False if isinstance(other, bool) else 0
+    return False if isinstance(other, (bool, np.bool_)) else 0
 
 
 def _fold_case(value):  # Excel compares text case-insensitively.
